@@ -25,7 +25,7 @@ def run(ctx):
     R.floor("decoder", len(dec), 1)
     if not enc or not dec:
         return R
-    e, d = enc[0], dec[0]
+    e, d = F.inlined(enc[0]), F.inlined(dec[0])     # private helpers of the encoder / decoder are part of them
     # ---- writer table: prefix const -> payload source
     wt = {}
     ins = [c for c in e.calls() if (c.method or "") == "insert" and "Vec" in (c.target_path or "") and not e.is_cleanup(c.bb)]
@@ -137,6 +137,13 @@ def run(ctx):
                 for (b2, s2, fm, line) in edge_forms(d):
                     if b2 in reach and any("CALLDATA_LIMIT" in c for c in fm.lin.consts):
                         pre = True
+                # the comparison may be stored in a boolean first (`let fits = size <= LIMIT; if !fits { return None }`)
+                for bi in reach:
+                    for st in d.blocks[bi]["stmts"]:
+                        if st["k"] == "assign" and st["rv"]["k"] == "bin" and st["rv"]["op"] in ("Lt", "Le", "Gt", "Ge"):
+                            tt = rvalue_origin(d, st["rv"], 0, frozenset(), 30)
+                            if mentions(tt, "CALLDATA_LIMIT") and mentions(tt, "get_frame_content_size"):
+                                pre = True
                 R.ob(bool(fs) and pre, "GUARD", d.where(), "GUARD|inscription|zstd-frame-size", "the zstd arm lost its frame-size pre-check against CALLDATA_LIMIT",
                      sample={"rule": "GUARD", "arm": "zstd", "bound": "frame content size <= CALLDATA_LIMIT"})
                 zf = [f for f in F.fns.values() if f.name.endswith("api::types::decode_zstd_into_bytes")]
@@ -180,14 +187,15 @@ def run(ctx):
     # published encoder produces (e.g. the prefix-only text of the empty payload).
     def none_blocks(fn):
         out = set()
+        rets = {0} | set(fn.j.get("ret_locals", []))
         for bi, b in enumerate(fn.blocks):
             t = b["term"]
             if t["k"] == "call":
                 pth = (t["func"].get("fn") or {}).get("path", "")
-                if pth.endswith("FromResidual::from_residual") and t["dest"]["l"] == 0:
+                if pth.endswith("FromResidual::from_residual") and t["dest"]["l"] in rets and not t["dest"].get("p"):
                     out.add(bi)
             for st in b["stmts"]:
-                if st["k"] == "assign" and st["lhs"]["l"] == 0 and not st["lhs"].get("p") and st["rv"]["k"] == "agg" and st["rv"].get("variant") == "None":
+                if st["k"] == "assign" and st["lhs"]["l"] in rets and not st["lhs"].get("p") and st["rv"]["k"] == "agg" and st["rv"].get("variant") == "None":
                     out.add(bi)
         return out
 
@@ -205,7 +213,7 @@ def run(ctx):
             t = fn.term(b)
             if t["k"] != "switch" or fn.is_cleanup(b):
                 continue
-            succs = fn.succ(b)
+            succs = [sx for sx in fn.succ(b) if fn.term(sx)["k"] != "unreachable"]
             rej = [sx for sx in succs if sx in nb or none_only(sx)]
             if not rej or len(rej) == len(succs):
                 continue
@@ -336,13 +344,16 @@ def _is_limit(t):
 
 
 def _some_blocks(fn):
+    """blocks that produce the function's `Some(..)` result - directly, or as the result of a virtually inlined helper whose
+    value is handed on"""
     out = set()
+    rets = {0} | set(fn.j.get("ret_locals", []))
     for bi, b in enumerate(fn.blocks):
         for s in b["stmts"]:
-            if s["k"] == "assign" and s["lhs"]["l"] == 0 and not s["lhs"].get("p") and s["rv"]["k"] == "agg" and s["rv"].get("variant") == "Some":
+            if s["k"] == "assign" and s["lhs"]["l"] in rets and not s["lhs"].get("p") and s["rv"]["k"] == "agg" and s["rv"].get("variant") == "Some":
                 out.add(bi)
         t = b["term"]
-        if t["k"] == "call" and t["dest"]["l"] == 0:
+        if t["k"] == "call" and t["dest"]["l"] in rets and not t["dest"].get("p"):
             p = (t["func"].get("fn") or {}).get("path", "")
             if not p.endswith("from_residual"):
                 out.add(bi)
